@@ -1,9 +1,290 @@
 package main
 
-import "golang.org/x/tools/go/ssa"
+import (
+	"golang.org/x/tools/go/ssa"
+)
 
-// trySpeculate merges side-effect-free diamonds below a symbolic If into ite terms
-// instead of forking. Returns true when it advanced fr.block to the join block.
-func (e *Exec) trySpeculate(fr *frame, ins *ssa.If, c *Term) bool {
-	return false
+// specAbort unwinds a failed speculation.
+type specAbort struct{ why string }
+
+func (e *Exec) abortSpec(why string) {
+	panic(specAbort{why})
+}
+
+// postDominators returns, for each block index, the index of its immediate post-dominator
+// (-1 = virtual exit).
+func (p *Program) postDominators(fn *ssa.Function) []int {
+	p.pdmu.Lock()
+	defer p.pdmu.Unlock()
+	if pd, ok := p.postdom[fn]; ok {
+		return pd
+	}
+	n := len(fn.Blocks)
+	exit := n
+	// reverse graph successors: preds in reverse graph = succs in CFG
+	// order: reverse post-order on the reverse CFG starting from exit
+	rsuccs := make([][]int, n+1) // reverse-graph successors = CFG preds
+	for _, b := range fn.Blocks {
+		if len(b.Succs) == 0 {
+			rsuccs[exit] = append(rsuccs[exit], b.Index)
+		}
+		for _, s := range b.Succs {
+			rsuccs[s.Index] = append(rsuccs[s.Index], b.Index)
+		}
+	}
+	visited := make([]bool, n+1)
+	var post []int
+	var dfs func(int)
+	dfs = func(u int) {
+		visited[u] = true
+		for _, v := range rsuccs[u] {
+			if !visited[v] {
+				dfs(v)
+			}
+		}
+		post = append(post, u)
+	}
+	dfs(exit)
+	order := make([]int, n+1) // node -> postorder number
+	for i := range order {
+		order[i] = -1
+	}
+	for i, u := range post {
+		order[u] = i
+	}
+	idom := make([]int, n+1)
+	for i := range idom {
+		idom[i] = -2
+	}
+	idom[exit] = exit
+	intersect := func(a, b int) int {
+		for a != b {
+			for order[a] < order[b] {
+				a = idom[a]
+			}
+			for order[b] < order[a] {
+				b = idom[b]
+			}
+		}
+		return a
+	}
+	changed := true
+	for changed {
+		changed = false
+		for i := len(post) - 2; i >= 0; i-- {
+			u := post[i]
+			// preds of u in the reverse graph = CFG succs (or exit for terminal blocks)
+			var preds []int
+			if u < n {
+				b := fn.Blocks[u]
+				if len(b.Succs) == 0 {
+					preds = append(preds, exit)
+				}
+				for _, s := range b.Succs {
+					preds = append(preds, s.Index)
+				}
+			}
+			ni := -2
+			for _, pr := range preds {
+				if order[pr] < 0 || idom[pr] == -2 {
+					continue
+				}
+				if ni == -2 {
+					ni = pr
+				} else {
+					ni = intersect(pr, ni)
+				}
+			}
+			if ni != -2 && idom[u] != ni {
+				idom[u] = ni
+				changed = true
+			}
+		}
+	}
+	res := make([]int, n)
+	for i := 0; i < n; i++ {
+		if idom[i] == exit || idom[i] == -2 {
+			res[i] = -1
+		} else {
+			res[i] = idom[i]
+		}
+	}
+	p.postdom[fn] = res
+	return res
+}
+
+const maxSpecBlocks = 48
+const maxSpecSteps = 20000
+
+// trySpeculate merges the side-effect-free region between a symbolic If and its immediate
+// post-dominator into ite terms instead of forking. It returns true when it advanced the
+// frame to the join block (whose phis are already evaluated).
+func (e *Exec) trySpeculate(fr *frame, ins *ssa.If, c *Term) (ok bool) {
+	if e.prog.cfg.NoSpeculate {
+		return false
+	}
+	B := ins.Block()
+	pd := e.prog.postDominators(fr.fn)
+	j := pd[B.Index]
+	if j < 0 {
+		if e.spec > 0 {
+			e.abortSpec("no join")
+		}
+		return false
+	}
+	J := fr.fn.Blocks[j]
+	// collect the region
+	inRegion := map[*ssa.BasicBlock]bool{}
+	var orderRev []*ssa.BasicBlock
+	state := map[*ssa.BasicBlock]int{} // 1 = visiting, 2 = done
+	cyclic := false
+	var dfs func(b *ssa.BasicBlock)
+	dfs = func(b *ssa.BasicBlock) {
+		if b == J || cyclic {
+			return
+		}
+		if b == B {
+			cyclic = true
+			return
+		}
+		switch state[b] {
+		case 1:
+			cyclic = true
+			return
+		case 2:
+			return
+		}
+		state[b] = 1
+		inRegion[b] = true
+		for _, s := range b.Succs {
+			dfs(s)
+		}
+		state[b] = 2
+		orderRev = append(orderRev, b)
+	}
+	for _, s := range B.Succs {
+		dfs(s)
+	}
+	fail := func(why string) bool {
+		if e.spec > 0 {
+			e.abortSpec(why)
+		}
+		return false
+	}
+	if cyclic || len(orderRev) > maxSpecBlocks {
+		return fail("cyclic or large region")
+	}
+	for b := range inRegion {
+		if len(b.Succs) == 0 {
+			return fail("region exits function")
+		}
+		for _, p := range b.Preds {
+			if p != B && !inRegion[p] {
+				return fail("side entry")
+			}
+		}
+	}
+	// speculative evaluation
+	savedFrame := e.curFrame
+	savedPrev, savedBlock := fr.prev, fr.block
+	outer := e.spec == 0
+	if outer {
+		e.specStart = e.locID
+		e.specObjStart = e.objID
+		e.specSteps = 0
+	}
+	e.spec++
+	defer func() {
+		e.spec--
+		if r := recover(); r != nil {
+			if _, isAbort := r.(specAbort); isAbort && outer {
+				e.curFrame = savedFrame
+				fr.prev, fr.block = savedPrev, savedBlock
+				ok = false
+				e.prog.stats.addSpec(false)
+				return
+			}
+			panic(r)
+		}
+	}()
+	type edge struct{ from, to *ssa.BasicBlock }
+	edgeGuard := map[edge]*Term{}
+	addEdge := func(from, to *ssa.BasicBlock, g *Term) {
+		k := edge{from, to}
+		if old, ok := edgeGuard[k]; ok {
+			edgeGuard[k] = e.ts.Or(old, g)
+		} else {
+			edgeGuard[k] = g
+		}
+	}
+	addEdge(B, B.Succs[0], c)
+	addEdge(B, B.Succs[1], e.ts.Not(c))
+	evalPhis := func(X *ssa.BasicBlock) {
+		for _, in := range X.Instrs {
+			phi, isPhi := in.(*ssa.Phi)
+			if !isPhi {
+				break
+			}
+			var res Value
+			for i, p := range X.Preds {
+				g, has := edgeGuard[edge{p, X}]
+				if !has || g.IsFalse() {
+					continue
+				}
+				v := e.get(fr, phi.Edges[i])
+				if res == nil {
+					res = v
+					continue
+				}
+				m, mok := e.merge(g, v, res)
+				if !mok {
+					e.abortSpec("phi not mergeable")
+				}
+				res = m
+			}
+			if res == nil {
+				e.abortSpec("phi without incoming edge")
+			}
+			fr.env[phi] = res
+		}
+	}
+	for i := len(orderRev) - 1; i >= 0; i-- {
+		X := orderRev[i]
+		guard := e.ts.Bool(false)
+		for _, p := range X.Preds {
+			if g, has := edgeGuard[edge{p, X}]; has {
+				guard = e.ts.Or(guard, g)
+			}
+		}
+		evalPhis(X)
+		for _, in := range X.Instrs {
+			switch t := in.(type) {
+			case *ssa.Phi:
+				continue
+			case *ssa.Jump:
+				addEdge(X, X.Succs[0], guard)
+			case *ssa.If:
+				ct := e.get(fr, t.Cond).(*Term)
+				addEdge(X, X.Succs[0], e.ts.And(guard, ct))
+				addEdge(X, X.Succs[1], e.ts.And(guard, e.ts.Not(ct)))
+			case *ssa.Return, *ssa.Panic, *ssa.Defer, *ssa.RunDefers, *ssa.Go, *ssa.Send, *ssa.MapUpdate, *ssa.Select:
+				e.abortSpec("side effect in region")
+			default:
+				e.specSteps++
+				if e.specSteps > maxSpecSteps {
+					e.abortSpec("speculation budget")
+				}
+				fr.block = X
+				e.visitInstr(fr, in)
+				e.curFrame = fr
+			}
+		}
+	}
+	evalPhis(J)
+	fr.prev, fr.block = B, J
+	fr.skipPhis = true
+	if outer {
+		e.prog.stats.addSpec(true)
+	}
+	return true
 }
